@@ -10,6 +10,7 @@ import (
 	"path/filepath"
 	"sort"
 	"strings"
+	"unicode"
 	"unicode/utf8"
 
 	"github.com/sourcegraph/zoekt"
@@ -75,10 +76,21 @@ var words = []string{
 }
 var puncts = []string{" ", " ", " ", "\n", "\n", ".", "-", "=", "(", ")", "_", "\t", ", ", "::", "/", "+"}
 
+var exoticCased = []string{"\u01c4x", "\u01c5x", "\u01c6x", "\U00010400\U00010401\U00010402", "\U00010428\U00010429\U0001042a",
+	"a\U00010400b", "\u13a0\u13a1\u13a2", "\uab70\uab71\uab72", "\u1e9e\u1e9e", "\u00dfa\u00df", "\u2126m", "\u03c9m", "\u212bx", "\u00e5x"}
+
+// cnlWords: per-corpus tokens of cased non-letters (set by genCorpus for about one corpus in three, each token in
+// several casings so that documents differ from one another and from the queries only in case)
+var cnlWords []string
+
 func genText(r *gen.Rand, maxTok int) string {
 	var sb strings.Builder
 	n := r.Intn(maxTok + 1)
 	for i := 0; i < n; i++ {
+		if len(cnlWords) > 0 && r.Chance(1, 6) {
+			sb.WriteString(gen.Pick(r, cnlWords))
+			continue
+		}
 		switch r.Intn(10) {
 		case 0, 1, 2, 3, 4, 5:
 			sb.WriteString(gen.Pick(r, words))
@@ -99,6 +111,29 @@ var fileBases = []string{"main.go", "foo.py", "README", "bar_test.go", "x", "é.
 
 func genCorpus(r *gen.Rand, big bool) *Corpus {
 	c := &Corpus{}
+	cnlWords = nil
+	if r.Chance(1, 7) {
+		// other cased runes inside the quantifier that are easy to mishandle: a three-member fold orbit (DŽ / Dž / dž),
+		// four-byte letters (Deseret), letters whose case pair lives in another block (Cherokee). The Lean model's
+		// lower-casing table does not know them, so such corpora are checked end to end only.
+		cnlWords = append(cnlWords, gen.Pick(r, exoticCased), gen.Pick(r, exoticCased), gen.Pick(r, exoticCased))
+	} else if r.Chance(1, 3) {
+		for i := r.Range(1, 3); i > 0; i-- {
+			tok := casedNonLetterToken(r)
+			up, lo := []rune(tok), []rune(tok)
+			for k := range up {
+				if l := unicode.ToLower(up[k]); l != up[k] {
+					lo[k] = l
+				} else {
+					up[k] = otherCase(up[k])
+					if unicode.ToLower(up[k]) == up[k] { // no upper form: keep
+						up[k] = lo[k]
+					}
+				}
+			}
+			cnlWords = append(cnlWords, tok, string(up), string(lo))
+		}
+	}
 	nRepos := r.Range(1, 4)
 	names := append([]string(nil), repoNames...)
 	gen.Shuffle(r, names)
@@ -132,6 +167,9 @@ func genCorpus(r *gen.Rand, big bool) *Corpus {
 		for j := 0; j < nd; j++ {
 			var d DocSpec
 			d.Name = gen.Pick(r, fileDirs) + gen.Pick(r, fileBases)
+			if len(cnlWords) > 0 && r.Chance(1, 4) {
+				d.Name = gen.Pick(r, fileDirs) + "notes-" + strings.ReplaceAll(gen.Pick(r, cnlWords), " ", "_") + ".md"
+			}
 			if used[d.Name] && r.Chance(3, 4) {
 				d.Name = fmt.Sprintf("%s%d", d.Name, j)
 			}
